@@ -179,8 +179,8 @@ CLAIMED.update({
               "of the state and of the three RNG streams by the logging step, completion and bit-identity of the fitted "
               "parameters with the run without logging (also after RNG consumption, unrelated fits, a switch of torch's default dtype, "
               "a relative logs path with a change of directory in between, re-used algorithm objects and settings that travelled through a "
-              "file) are validated by TLC against SaemTrace.tla; the seeded fit / personalization / simulations are repeated in fresh "
-              "interpreters under two string-hash seeds."),
+              "file) are validated by TLC against SaemTrace.tla; the seeded fit, three personalizations (scipy_minimize included) and two simulations are repeated in fresh "
+              "interpreters under three string-hash seeds."),
         note=("Bit-identity is judged within one process on model.parameters. Trusted: TLC, recorder wrappers."),
         technique="TLA+ spec + TLC exhaustive; code->spec trace validation; seeded re-execution",
         design_ref="4/C11, 3.3"),
